@@ -3,6 +3,10 @@ use crate::{sim::*, util::*};
 use serde_json::{Value, json};
 use std::panic::{AssertUnwindSafe, catch_unwind};
 
+pub const PROP_IDS: [&str; 18] = [
+    "C01", "C02", "C03", "C04", "C05", "C06", "C07", "C08", "C09", "C10", "C11", "C12", "C13", "C14", "C15", "C16", "C17", "C18",
+];
+
 pub struct Outcome {
     pub seed: u64,
     pub cfg: String,
@@ -32,6 +36,7 @@ pub fn steps_for(seed: u64, prof: &Profile) -> usize {
 pub fn run_one(prop: &str, seed: u64, fault: Option<Fault>) -> Outcome {
     let prof = Profile::for_case(prop, seed);
     let steps = steps_for(seed, &prof);
+    let target: &'static str = PROP_IDS.iter().copied().find(|p| *p == prop).unwrap_or("C01");
     let mut slot: Option<Sim> = None;
     let res = catch_unwind(AssertUnwindSafe(|| {
         slot = Some(Sim::new(seed, prof.clone()));
@@ -45,7 +50,9 @@ pub fn run_one(prop: &str, seed: u64, fault: Option<Fault>) -> Outcome {
                 }
             }
             sim.step();
-            if !sim.errs.is_empty() {
+            // stop at a violation of the property under check; violations of other properties are
+            // recorded (bounded) and the run goes on so that this property's own oracles still run
+            if sim.errs.iter().any(|e| e.props.contains(&target)) || sim.errs.len() > 12 {
                 return completed;
             }
         }
@@ -55,11 +62,12 @@ pub fn run_one(prop: &str, seed: u64, fault: Option<Fault>) -> Outcome {
             }
         }
         sim.quiesce(14 + crate::comps::PERIOD as usize);
-        if sim.errs.is_empty() {
+        let hit = |sim: &Sim| sim.errs.iter().any(|e| e.props.contains(&target)) || sim.errs.len() > 12;
+        if !hit(sim) {
             sim.compare_final();
             sim.check_events_final();
         }
-        if sim.errs.is_empty() {
+        if !hit(sim) {
             sim.idle_check();
             completed = true;
         }
